@@ -28,6 +28,14 @@ CHECKS = {
    text="GcImpl.tla models SetState (RWMutex, per-instance mutex, atomics; one label per access) and is model-checked against the L0 global-count object through a linearizability monitor (GcMon.tla) plus exact quiescent accounting, over every interleaving of fixed and random scenarios; TLC generates all operation-level interleavings and sampled fine-grained prefixes which are replayed into the REAL flow control (public store path) under a cooperative scheduler; all recorded histories (also free-running) and the quiescent DebugInfo accounting are validated by TLC.",
    note="3-4 processes, <=2 operations each in the exhaustive runs; limit changes are never concurrent with each other (single controller worker); token-bucket clause is checked through DoAcquire on virtual time.",
    technique="TLC linearizability monitor (L1=>L0) + TLC-generated schedules under a controlled scheduler + TLC trace validation"),
+ "C13": dict(cat="model_checking", design="4/C13",
+   text="Sharding.tla models per-shard leadership, shard stores and guarded calls (invariants: one leader, no data without leadership, data only in its own shard); TLC-simulated histories of per-shard lose/gain and report/acquire calls at either server are replayed on two REAL limiter servers sharing a fake API server, leadership really elected and moved on virtual time (per-shard lease faults); calls and per-(server,shard) observations are trace-validated by TLC (non-leader refuses naming the leader and changes nothing; store exists only while leading; regained in-memory shard starts empty). Shard agreement gateway<->server is checked behaviourally through a real gateway ClientSets against N stub servers for generated names (arbitrary bytes, 1 KiB, N up to 64).",
+   note="The hash is uninterpreted in the spec (differential check instead); client-go election is used, not verified; guard judged against the server's own view at call time.",
+   technique="TLC invariants + TLC-simulated leadership histories replayed into two real servers + TLC trace validation; differential shard probe"),
+ "C18": dict(cat="model_checking", design="4/C18",
+   text="Reclaim.tla models heartbeats, records, time and the two periodic passes; TLC checks 'records of a live instance are never removed' (action property) and 'nothing is left of an instance silent for more than 35 s' (invariant) and simulates histories (joins, reports, acquires, silences of 1-40 s, come-backs); they are replayed on a REAL limiter server whose real 1 s / 30 s cleanup loops run on virtual time; observations of the recorded conditions and of the free global-count capacity (a probe asking for the whole limit) are trace-validated by TLC against the reclaim L0.",
+   note="Live = every heartbeat gap <= 3 s; dead = silent > 3+30+1+1 s; in between either outcome accepted; no leadership change inside these histories.",
+   technique="TLC invariant/action property on the timed reclaim model + simulated histories replayed into the real server on virtual time + TLC trace validation"),
 }
 
 NOT_YET = {}
